@@ -1,5 +1,6 @@
 import inspect
 import sys
+import threading
 from typing import Callable, Dict, List, Optional, Set, Tuple, Type, Union, Any
 
 from ..utils import exceptions as exc
@@ -11,6 +12,8 @@ from .options import Options, RuntimeContext
 from .rule import resolve_forward_type
 
 __parsers__ = {}
+# pending references are resolved on first use: concurrent first calls must not interleave in there
+forward_refs_lock = threading.RLock()
 
 
 class BaseParser:
@@ -211,6 +214,18 @@ class BaseParser:
     def resolve_forward_refs(self, local_vars=None, ignore_errors: bool = True):
         if not self.forward_refs:
             return False
+        with forward_refs_lock:
+            # a concurrent caller that waited here finds nothing pending any more
+            done = []
+            try:
+                return self._resolve_forward_refs(done, local_vars=local_vars, ignore_errors=ignore_errors)
+            finally:
+                # the pending entries go last: callers that see none pending skip the lock,
+                # so every resolved type has to be in place by then
+                for name in done:
+                    self.forward_refs.pop(name, None)
+
+    def _resolve_forward_refs(self, done: list, local_vars=None, ignore_errors: bool = True):
         clear_refs = []
         resolved = False
         # todo: add resolve hooks so that application code can execute lazy-load type process logic
@@ -219,7 +234,7 @@ class BaseParser:
             try:
                 evaluate_forward_ref(ref, self.globals, local_vars)
                 if ref.__forward_evaluated__:
-                    # evaluated successfully, pop
+                    # evaluated successfully
                     value = ref.__forward_value__
                     if not isinstance(value, type):
                         # maybe some very foolish ForwardRef like
@@ -248,7 +263,7 @@ class BaseParser:
                     resolved = True
                     if self.is_local:
                         clear_refs.append(ref)
-                    self.forward_refs.pop(name)
+                    done.append(name)
             except Exception:
                 if ignore_errors:
                     continue
@@ -257,7 +272,7 @@ class BaseParser:
             for field in self.fields.values():
                 field.resolve_forward_refs()
             # resolve for types
-            self.addition_type, r = resolve_forward_type(self.addition_type)
+            self.resolve_forward_types()
         if self.is_local:
             # ForwardRef in local vars is not cachable
             # where typing is using a lru_cache
@@ -266,6 +281,9 @@ class BaseParser:
                 ref.__forward_evaluated__ = False
                 ref.__forward_value__ = None
         return resolved
+
+    def resolve_forward_types(self):
+        self.addition_type, r = resolve_forward_type(self.addition_type)
 
     @classmethod
     def validate_field_name(cls, name: str):
